@@ -1,7 +1,7 @@
 ---- MODULE MC_Map ----
 (* Bounded instance for C06 (round trip, normalisation, edits) and C16 (addressing, tile fields). *)
-EXTENDS MapFile
-CONSTANTS Tier
+EXTENDS MapFile, Rand
+CONSTANTS Tier, Seed, NRand
 VARIABLES done
 TilePool == << <<0,0,0,0>>, <<255,255,255,255>>, <<21,0,0,16>>, <<31,224,255,239>>, <<1,2,3,4>>, <<32,1,0,0>> >>
 Tiles(n, seed) == [i \in 1..n |-> TilePool[((i + seed) % Len(TilePool)) + 1]]
@@ -45,6 +45,19 @@ ProbeHeights == IF Tier = "thorough" THEN 1..256 ELSE {1, 2, 3, 5, 6, 7, 100, 25
 SaveCase(m, ub) == [op |-> "save_equiv", save |-> SavedGame(m, ub), map |-> Encode([m EXCEPT !.saved = TRUE, !.groups = <<>>])]
 Seqs(S, n) == [1..n -> S]
 Emit(id, steps) == PrintT("S|" \o ToJson([id |-> id, steps |-> steps]))
+\* ---- seeded random maps: every field arbitrary within the reader's acceptance conditions --------------------------------------------
+RS(r) == Seed * 503 + r
+RB(r, st, i) == Below(RS(r), st, i, 256)
+RBytes(r, st, base, n) == [j \in 1..n |-> RB(r, st, base + j)]
+RNameChars == << 97, 122, 65, 48, 57, 95, 46, 32, 255, 1 >>
+RMap(r) == LET lg == Below(RS(r), 1, 0, 7)  h == Below(RS(r), 2, 0, 4) IN
+  [ver |-> 4112 + Below(RS(r), 3, 0, 5000), saved |-> Below(RS(r), 4, 0, 2) = 1, lg |-> lg, h |-> h,
+   tiles |-> [i \in 1..(h * Pow2(lg)) |-> RBytes(r, 10 + (i % 7), i * 4, 4)], clip |-> RBytes(r, 5, 0, 16),
+   sources |-> [i \in 1..Below(RS(r), 6, 0, 6) |-> [name |-> Draw(RS(r), 20 + i, Below(RS(r), 7, i, 9), RNameChars),
+                                                    n |-> IF Below(RS(r), 8, i, 3) = 0 THEN <<0, 0, 0, 0>> ELSE RBytes(r, 9, i * 4, 4)]],
+   mappings |-> [i \in 1..Below(RS(r), 30, 0, 5) |-> RBytes(r, 31, i * 8, 8)], terrains |-> [i \in 1..Below(RS(r), 32, 0, 3) |-> 40 + i],
+   groups |-> [i \in 1..Below(RS(r), 33, 0, 4) |-> LET gw == Below(RS(r), 34, i, 4)  gh == Below(RS(r), 35, i, 4) IN
+                [w |-> gw, h |-> gh, idx |-> [k \in 1..(gw * gh) |-> RBytes(r, 36, i * 64 + k * 4, 4)], name |-> Draw(RS(r), 37 + i, Below(RS(r), 38, i, 7), RNameChars)]]]
 Init == done = FALSE
 Next == /\ ~done /\ done' = TRUE
         /\ \A lg \in {0, 1, 2, 5} : \A h \in 0..2 : \A ns \in 0..3 : \A nm \in 0..2 : \A nt \in 0..1 : \A ng \in 0..2 :
@@ -52,6 +65,10 @@ Next == /\ ~done /\ done' = TRUE
                  m == MakeMap(lg, h, ns, nm, nt, ng, seed)
              IN /\ Assert(Acceptable(m), "acceptable")
                 /\ Emit(<<"rt", lg, h, ns, nm, nt, ng>>, << RoundTrip(m, SavedWords[(seed % 4) + 1], <<seed % 256, 1, 2, 3>>, IF seed % 2 = 0 THEN <<>> ELSE <<9, 9, 9>>) >>)
+        /\ \A r \in 1..NRand : LET m == RMap(r) IN
+             /\ Assert(Acceptable(m), "random map is acceptable")
+             /\ Emit(<<"rand", Seed, r>>, << RoundTrip(m, IF m.saved THEN Pick(RS(r), 40, 0, << <<1,0,0,0>>, <<2,0,0,0>>, <<255,255,255,255>>, <<0,1,0,0>> >>) ELSE <<0,0,0,0>>,
+                                                    RBytes(r, 41, 0, 4), RBytes(r, 42, 0, Below(RS(r), 43, 0, 4))) >>)
         /\ Emit(<<"rt10">>, << RoundTrip(MakeMap(10, 1, 1, 1, 0, 0, 4), <<1,0,0,0>>, <<0,0,0,0>>, <<>>) >>)
         /\ \A n \in 1..(IF Tier = "thorough" THEN 3 ELSE 2) : \A ix \in Seqs(1..Len(EditPool), n) :
              Emit(<<"ed", ix>>, << Edits(MakeMap(6, 2, 3, 2, 1, 1, 5), [i \in 1..n |-> EditPool[ix[i]]]) >>)
